@@ -580,11 +580,11 @@ func (r *Router) waitForHandlers() bool {
 	waitGroup.Add(1)
 	go func() {
 		defer waitGroup.Done()
+
+		// first wait until all handlers stopped receiving: a message taken from a subscriber just before
+		// is dispatched (and added to runningHandlersWg) before its handler's receive loop ends,
+		// so only after that runningHandlersWg covers every invocation
 		r.handlersWg.Wait()
-	}()
-	waitGroup.Add(1)
-	go func() {
-		defer waitGroup.Done()
 
 		r.runningHandlersWgLock.Lock()
 		defer r.runningHandlersWgLock.Unlock()
